@@ -19,6 +19,7 @@ from __future__ import annotations
 
 import contextlib
 import json
+import random
 
 from .. import clientfaults as cf
 from .. import vloop
@@ -226,10 +227,107 @@ def sessions(tier: str, seed: int, kinds=vloop.CLIENTS):
     return logs, meta
 
 
+class FuzzPlan(cf.Plan):
+    """a gateway whose writes may stall (drain suspends) or fail from a given moment on, per connection"""
+
+    def __init__(self, refuse: int, pending):
+        super().__init__(refuse=refuse, pending=pending)
+        self.sess = None
+        self.stall: dict = {}      # connection -> (from time, seconds, fails afterwards)
+
+    def _rule(self, conn):
+        r = self.stall.get(conn)
+        return r if r and self.sess is not None and self.sess.loop.time() >= r[0] else None
+
+    def drain_delay(self, conn, nth):
+        r = self._rule(conn)
+        return r[1] if r else None
+
+    def drain_fails(self, conn, nth):
+        r = self._rule(conn)
+        return bool(r and r[2])
+
+
+def fuzz_sessions(n: int, seed: int, with_close: bool, kinds=vloop.CLIENTS):
+    """random sessions: a gateway that refuses / delays some attempts, then two to five disturbances at random times -
+    end of stream, reset, garbage, failing or stalled writes with sends in flight, extra connect() calls, frames fed
+    in between, and (for C14) a close() somewhere - under a random status-callback regime; the monitor judges them all"""
+    rng = random.Random(seed * 7919 + (1 if with_close else 0))
+    logs, meta = [], []
+    for i in range(n):
+        kind = rng.choice(kinds)
+        refuse = rng.choice([0, 0, 1, 2, 3])
+        pending = rng.choice([None, None, None, 0.7, 2.0])
+        cb = rng.choice(["ok", "ok", "slow", "slowC", "slowD", "raise"])
+        plan = FuzzPlan(refuse, pending)
+        k = rng.randint(2, 5)
+        times = sorted(round(rng.uniform(0.05, 18.0), 3) for _ in range(k))
+        acts = []
+        for t in times:
+            a = rng.choice(["eof", "reset", "garbage-eof", "write-error", "stalled-send", "send", "connect", "feed", "feed-half"]
+                           if kind != "actisense" else ["eof", "reset", "garbage-eof", "connect", "feed", "feed-half", "send"])
+            acts.append((t, a, rng.choice([0.05, 0.2, 0.4]), rng.random() < 0.6))
+        t_close = round(rng.uniform(0.0, 19.0), 3) if with_close else None
+
+        def inject(s, state, plan=plan, acts=acts, t_close=t_close, kind=kind):
+            plan.sess = s
+            pk = cf.valid_packet(kind, 2)
+            for t, a, d, fails in acts:
+                if a in ("eof", "reset", "garbage-eof", "write-error"):
+                    fault_injector(kind, a, None, t, plan)(s, state)
+                elif a == "stalled-send":
+                    def go(t=t, d=d, fails=fails):
+                        if s.readers:
+                            c = max(s.readers)
+                            plan.stall[c] = (t, d, fails)
+                            state["last_disturbance"] = max(state["last_disturbance"], t + d)
+                            s.user("send", lambda: s.client.send(cf.iso_request()))
+                            if fails:
+                                s.loop.call_later(d + 0.01, lambda: (not s.readers[c].at_eof()) and s.readers[c].exception() is None
+                                                  and not s.writers[c].closed and s.eof(c))
+                    s.at_time(t, go)
+                elif a == "send":
+                    s.at_time(t, lambda: s.user("send", lambda: s.client.send(cf.iso_request())))
+                elif a == "connect":
+                    s.at_time(t, lambda: s.user("connect", s.client.connect))
+                elif a in ("feed", "feed-half"):
+                    def feed(half=(a == "feed-half")):
+                        if s.readers:
+                            c = max(s.readers)
+                            r = s.readers[c]
+                            if not r.at_eof() and r.exception() is None and not s.writers[c].closed and not half:
+                                pass        # whole frames are fed (and accounted for) by the session itself after every accept
+                            elif not r.at_eof() and r.exception() is None and not s.writers[c].closed:
+                                # a frame in two reads 0.3 s apart (the rest follows only if the link is still there:
+                                # a fault in between leaves half a packet pending at the fault)
+                                if state.get("split_until", 0.0) > s.loop.time():
+                                    return
+                                s.feed(c, pk[:len(pk) // 2])
+                                state["split_until"] = s.loop.time() + 0.3
+
+                                def rest(c=c, r=r):
+                                    if not r.at_eof() and r.exception() is None and not s.writers[c].closed \
+                                            and s.client.state.name != "CLOSED":
+                                        s.feed(c, pk[len(pk) // 2:])
+                                s.loop.call_later(0.3, rest)
+                    s.at_time(t, feed)
+            if t_close is not None:
+                def close_now():
+                    state["last_disturbance"] = s.loop.time()
+                    s.user("close", s.client.close)
+                s.at_time(t_close, close_now)
+        log, _ = cf.run(kind, plan, inject, status_cb=cb, t_end=70.0)
+        logs.append(log)
+        meta.append((kind, "fuzz:" + ",".join(f"{a}@{t}" for t, a, _, _ in acts) + (f",close@{t_close}" if with_close else ""),
+                     refuse, cb, f"pending={pending}"))
+    return logs, meta
+
+
 def judge(chk: Check, wd, logs, meta, prefix: str, tag: str):
     inp, outp = wd / f"{tag}.json", wd / f"{tag}-verdicts.json"
     inp.write_text(json.dumps(logs))
-    _, v = run_trace_tlc("Trace_Client", "Trace_Client.cfg", inp, outp, name=f"Trace_Client-{tag}", heap="3g")
+    _, v = run_trace_tlc("Trace_Client", "Trace_Client.cfg", inp, outp, name=f"Trace_Client-{tag}", heap="3g",
+                         extra_env={"FOCUS": prefix})        # the monitor records the clauses of this property only
     chk.gate(v["n"] == len(logs), "Trace_Client did not judge every log")
     other = {}
     for b in v["bad"]:
@@ -276,6 +374,14 @@ def conformance(chk: Check, wd, conf, tag: str):
 def bind(chk: Check, tier: str, seed: int):
     wd = workdir("C13")
     logs, meta = sessions(tier, seed)
+    # random sessions on top of the directed ones (the run's seed picks them; the thorough tier takes many seeds)
+    nfz = 0
+    for k in range({"quick": 1, "thorough": 20, "selftest": 0}[tier]):
+        fl, fm = fuzz_sessions({"quick": 150, "thorough": 250, "selftest": 0}[tier], seed * 100 + k, with_close=False)
+        logs += fl
+        meta += [(m[0], "fuzz", m[2], m[3], m[1]) for m in fm]
+        nfz += len(fl)
+    chk.add(random_sessions=nfz)
     judge(chk, wd, logs, meta, "C13", "c13")
     conformance(chk, wd, CONF if tier != "selftest" else [], "c13")
     per = {}
